@@ -331,3 +331,51 @@ func C11BlockingDisconnectCallback() {
 	}
 	sym.Reach("blocking-callback-done")
 }
+
+// C11SlowSubscriber: a subscriber that does not read its events falls far behind (150 events: beyond every
+// queue on the way), while a call is in flight and a disconnect callback is registered; then the connection
+// is lost (by the peer, or closed locally). The pending call returns an error, the callback runs once, a
+// later call fails, Close returns and the subscriber's channel ends up closed — nobody waits for the
+// subscriber to catch up.
+func C11SlowSubscriber() {
+	s := newZZStream()
+	e := net.NewEndPoint(s)
+	c := NewClient(NewChannel(e, DefaultCap()))
+	_, events, err := c.Subscribe(1, 1, 5)
+	sym.Assert(err == nil, "slow-subscriber/subscribe-ok")
+	var disconnects int32
+	c.OnDisconnect(func(err error) { atomic.AddInt32(&disconnects, 1) })
+	res := make(chan zzCallRes, 1)
+	go func() {
+		p, err := c.Call(nil, 1, 1, 100, []byte{1})
+		res <- zzCallRes{p, err}
+	}()
+	sym.Quiesce()
+	n := []int{3, 150}[sym.Choose("events-unread", 2)]
+	for i := 0; i < n; i++ {
+		s.inject(net.NewMessage(net.NewHeader(net.Event, 1, 1, 5, uint32(1000+i)), []byte{byte(i)}))
+	}
+	sym.Quiesce()
+	local := sym.Bool("closed-locally")
+	if local {
+		e.Close()
+	} else {
+		s.peerClose()
+	}
+	sym.Quiesce()
+	select {
+	case r := <-res:
+		sym.Assert(r.err != nil, "slow-subscriber/pending-call-succeeded")
+	default:
+		sym.Fail("slow-subscriber/pending-call-never-returned")
+	}
+	sym.Assert(atomic.LoadInt32(&disconnects) == 1, "slow-subscriber/disconnect-callback-count")
+	_, err = c.Call(nil, 1, 1, 101, []byte{2})
+	sym.Assert(err != nil, "slow-subscriber/later-call-succeeded")
+	got := 0
+	for range events { // a channel that is never closed is a deadlock finding
+		got++
+	}
+	sym.Assert(got <= n, "slow-subscriber/event-from-nowhere")
+	sym.Reach("slow-subscriber-done")
+}
